@@ -308,6 +308,10 @@ P_C10d_OneAck ==
   /\ oldPhase \in {"acked", "exited"} => acks = 1 /\ \A r \in Reqs : ~Occupied(r)
 P_C10d_StopTerminates == (oldPhase = "softStopping") ~> (oldPhase \in {"exited", "dead"})
 
+\* the size arithmetic of ScmManifest, as a state-level formula (TLC reports a false constant-level invariant as an
+\* evaluation error instead of a violation)
+P_C10_Manifest == manifest = manifest /\ P_C10_ManifestFits
+
 P_C10 == P_C10a_NoListenerLost /\ P_C10b_NoRequestCut /\ P_C10b_OnlyIdleClosed /\ P_C10c_NoAcceptAfterStop
          /\ P_C10d_OneAck
 =============================================================================
